@@ -379,6 +379,9 @@ struct cblog {
 
 /* virtual clock shared by all sims of a process */
 extern time_t VNOW;
+extern int *SIM_ALLOC_PAUSE; /* set when a failing allocator is installed: monitors pause it around their own table lookups */
+#define MON_PAUSE() do { if (SIM_ALLOC_PAUSE) (*SIM_ALLOC_PAUSE)++; } while (0)
+#define MON_RESUME() do { if (SIM_ALLOC_PAUSE) (*SIM_ALLOC_PAUSE)--; } while (0)
 extern __thread struct sim *CUR_SIM;
 
 void universe_build(struct universe *u, struct rng *r, int np, int nk);
